@@ -43,6 +43,9 @@ pub struct St {
     last_ka: Vec<Option<Vec<u8>>>,
     misses: Vec<u32>,
     next_seq: u32,
+    /// the monitor's own notion of an outstanding probe: a keepalive went out on the link since
+    /// its last reset and since the last sample (a superset of what the code arms)
+    probe_out: Vec<bool>,
 }
 
 pub struct MA {
@@ -61,7 +64,12 @@ impl MA {
         Self {
             n,
             events,
-            inits: vec![("S1 established (warming)", 0), ("S2 live", 1), ("S5 link 1 timed out", 2)],
+            inits: vec![
+                ("S1 established (warming)", 0),
+                ("S2 live", 1),
+                ("S5 link 1 timed out", 2),
+                ("S6 live, probe armed on both links, then link 1 soft-reset by a failed batch send (receiver port closed and reopened)", 3),
+            ],
             name: format!("cadence links={n} alphabet={}", if reduced { "reduced" } else { "full" }),
         }
     }
@@ -85,7 +93,7 @@ impl Model for MA {
     }
     fn init(&self, env: &mut Env, i: usize) -> St {
         let (w, mut rec) = established(env, self.n, DynamicConfig::new(), T0);
-        let mut s = St { w, last_ka: vec![None; self.n], misses: vec![0; self.n], next_seq: 1000 };
+        let mut s = St { w, last_ka: vec![None; self.n], misses: vec![0; self.n], next_seq: 1000, probe_out: vec![false; self.n] };
         let kind = self.inits[i].1;
         if kind >= 1 {
             for _ in 0..8 {
@@ -114,6 +122,27 @@ impl Model for MA {
             }
             assert!(!s.w.connections[1].connected);
         }
+        if kind == 3 {
+            // four passes without echoes: the last keepalive arms a probe (RTT sample older than 3 s)
+            for _ in 0..4 {
+                self.step_ev(env, &mut s, Ev::Hk(1000)).expect("scripted prefix");
+            }
+            assert!(s.w.connections[1].rtt.waiting_for_keepalive_response, "scripted state: no probe armed on link 1");
+            self.step_ev(env, &mut s, Ev::Fclose(1)).expect("scripted prefix");
+            // only a threshold flush that fails resets the link (the periodic flush just logs)
+            for _ in 0..40 {
+                if !s.w.connections[1].connected {
+                    break;
+                }
+                self.step_ev(env, &mut s, Ev::Burst).expect("scripted prefix");
+                if std::env::var("VERIF_TRACE").is_ok() {
+                    eprintln!("TRACE S6 burst: {:?}", s.w.connections.iter().map(|c| (c.connected, c.in_flight_packets, c.window, c.has_queued_packets(), c.is_stall_gated())).collect::<Vec<_>>());
+                }
+            }
+            assert!(!s.w.connections[1].connected, "scripted state: link 1 was not reset by the failed sends");
+            assert!(!s.probe_out[1], "scripted state: the monitor did not see the reset");
+            s.w.rx_open[1] = true;
+        }
         s
     }
     fn n_events(&self) -> usize {
@@ -129,7 +158,37 @@ impl Model for MA {
         }
     }
     fn step(&self, env: &mut Env, s: &mut St, e: usize) -> Result<(), Fail> {
-        let ev = self.events[e];
+        self.step_ev(env, s, self.events[e])
+    }
+    fn fingerprint(&self, s: &St) -> u64 {
+        let v: Vec<(bool, u32, bool, u64, bool)> = s
+            .w
+            .connections
+            .iter()
+            .enumerate()
+            .map(|(l, c)| (c.connected, s.misses[l], c.rtt.waiting_for_keepalive_response, c.get_smooth_rtt_ms().to_bits(), s.probe_out[l]))
+            .collect();
+        engine::hash_of(&v)
+    }
+}
+
+impl MA {
+    fn step_ev(&self, env: &mut Env, s: &mut St, ev: Ev) -> Result<(), Fail> {
+        let pre: Vec<(bool, bool, u64)> = s.w.connections.iter().map(|c| (c.connected, c.last_received.is_some(), c.reconnection.last_reconnect_attempt_ms)).collect();
+        let r = self.step_inner(env, s, ev);
+        // a reset (soft: the receive stamp is wiped; full: a reconnect attempt is recorded) cancels the probe
+        for (l, c) in s.w.connections.iter().enumerate() {
+            if l < pre.len() && l < s.probe_out.len() {
+                let soft = (pre[l].0 || pre[l].1) && !c.connected && c.last_received.is_none();
+                let full = c.reconnection.last_reconnect_attempt_ms != pre[l].2;
+                if soft || full {
+                    s.probe_out[l] = false;
+                }
+            }
+        }
+        r
+    }
+    fn step_inner(&self, env: &mut Env, s: &mut St, ev: Ev) -> Result<(), Fail> {
         let n = self.n;
         match ev {
             Ev::Hk(dt) => {
@@ -146,6 +205,7 @@ impl Model for MA {
                     }
                     ka_n[l] += 1;
                     s.last_ka[l] = Some(b.clone());
+                    s.probe_out[l] = true;
                     let c = &pre[l];
                     let ctx = |what: &str| format!("{what}: keepalive on link {l} at +{} ms: {:02x?}", now - T0, b);
                     if b.len() != 38 {
@@ -185,6 +245,9 @@ impl Model for MA {
                     }
                     // a closed receiver socket hides the wire: fall back to the link's own send stamp
                     let sent = ka_n[l] > 0 || (!s.w.rx_open[l] && s.w.connections[l].last_keepalive_sent == Some(now));
+                    if sent {
+                        s.probe_out[l] = true;
+                    }
                     if !sent {
                         s.misses[l] += 1;
                         if s.misses[l] >= 2 {
@@ -252,19 +315,6 @@ impl Model for MA {
         }
         Ok(())
     }
-    fn fingerprint(&self, s: &St) -> u64 {
-        let v: Vec<(bool, u32, bool, u64)> = s
-            .w
-            .connections
-            .iter()
-            .enumerate()
-            .map(|(l, c)| (c.connected, s.misses[l], c.rtt.waiting_for_keepalive_response, c.get_smooth_rtt_ms().to_bits()))
-            .collect();
-        engine::hash_of(&v)
-    }
-}
-
-impl MA {
     /// deliver an echo and judge the sample filter on the real shell path
     fn echo(&self, env: &mut Env, s: &mut St, l: usize, k: &[u8]) -> Result<(), Fail> {
         let now = s.w.now;
@@ -287,6 +337,16 @@ impl MA {
                 format!("link {l}: an RTT sample was taken from an echo of {} bytes (probe outstanding {waiting}, now {now})", k.len()),
             ));
         }
+        if sampled && !s.probe_out[l] {
+            return Err(Fail::new(
+                "rtt-sample-without-outstanding-probe",
+                format!("link {l}: an RTT sample was taken at +{} ms although no keepalive has gone out on the link since its last reset / last sample (the code's own flag said outstanding = {waiting})", now - T0),
+            ));
+        }
+        if sampled {
+            s.probe_out[l] = false;
+        }
+        let c = &s.w.connections[l];
         if should && c.rtt.last_rtt_measurement_ms != now {
             return Err(Fail::new("rtt-sample-not-taken", format!("link {l}: valid echo while a probe was outstanding took no sample")));
         }
@@ -509,7 +569,7 @@ pub fn run(tier: Tier) -> Report {
             replay: json!({"exploration": "smoother", "detail": b}),
         });
     }
-    rep.set("oracle", json!("(A) per link, over housekeeping passes in which it was connected and not timed out (own rule on the pre-pass state): never two consecutive passes without a keepalive on its wire; every keepalive is 38 bytes, type 9000, bytes 2..10 = the send time, magic c01f, version 1, and (conn id low 32 bits, window, in-flight, floor(smoothed RTT), loss count, floor(bit rate/8)) equal the link's values on the pre-pass clone; never on a disconnected link. (B) an echo yields a sample iff a probe was outstanding, the frame has >= 10 bytes and 0 < now - ts <= 10000, and the sample equals now - ts; the smoothed RTT is finite and >= 0 after every event and after every sample sequence over {1,2,50,9999,10000}^<=N"));
+    rep.set("oracle", json!("(A) per link, over housekeeping passes in which it was connected and not timed out (own rule on the pre-pass state): never two consecutive passes without a keepalive on its wire; every keepalive is 38 bytes, type 9000, bytes 2..10 = the send time, magic c01f, version 1, and (conn id low 32 bits, window, in-flight, floor(smoothed RTT), loss count, floor(bit rate/8)) equal the link's values on the pre-pass clone; never on a disconnected link. (B') a sample is only ever taken while the monitor's own probe flag is set (a keepalive went out on the link since its last soft or full reset and since the last sample); (B) an echo yields a sample iff a probe was outstanding, the frame has >= 10 bytes and 0 < now - ts <= 10000, and the sample equals now - ts; the smoothed RTT is finite and >= 0 after every event and after every sample sequence over {1,2,50,9999,10000}^<=N"));
     rep.assume("housekeeping spacing menu {990, 1000, 1010, 2000} ms stands for timer jitter; 'two housekeeping periods' is judged as 'two consecutive passes without a keepalive'");
     rep.assume("the select! glue is mirrored (world.rs) and bound by a call-order + token digest fingerprint");
     rep
